@@ -701,4 +701,48 @@ func C19(c *core.Ctx) {
 		}
 	}
 
+
+	// ---- R19.7 a log entry is applied to the router whose log it was fetched from. The
+	// Interest for an entry is made from one router's name and the sequence number read is
+	// recorded for that router, but PrefixTable.Apply picks the table by the ExitRouter the
+	// content names: an entry of X's log that names Y replaces the prefixes held for Y, whose
+	// own log is fully consumed — nothing corrects it. Apply is reachable only on the edge
+	// asserting that the content's ExitRouter name equals the name of the router fetched.
+	if ppd := c.Fn("R19.7", "dv/dv", "Router", "processPrefixData"); ppd != nil {
+		var applies []ssa.Instruction
+		for _, ci := range core.FindCallsDeep(ppd, core.CalleeID{Pkg: "dv/table", Recv: "PrefixTable", Name: "Apply"}) {
+			applies = append(applies, ci)
+		}
+		isOwner := func(v ssa.Value) bool {
+			_, path := core.FieldPath(v)
+			return len(path) >= 1 && path[len(path)-1] == "Name" && !containsStr(path, "ExitRouter")
+		}
+		isExit := func(v ssa.Value) bool {
+			_, path := core.FieldPath(v)
+			return len(path) >= 2 && path[len(path)-1] == "Name" && containsStr(path, "ExitRouter")
+		}
+		same := atomCallTrue("entry names the router it was fetched from", func(cl *ssa.Call) bool {
+			id, ok := core.Callee(&cl.Call)
+			if !ok || id.Name != "Equal" || len(cl.Call.Args) != 2 {
+				return false
+			}
+			a, b := cl.Call.Args[0], cl.Call.Args[1]
+			return (isExit(a) && isOwner(b)) || (isExit(b) && isOwner(a))
+		})
+		if len(applies) == 0 {
+			c.Und("R19.7", "log-entry-applied-to-its-owner", p.Pos(ppd.Pos()), "processPrefixData no longer calls PrefixTable.Apply")
+		} else {
+			g := core.GateDeep(ppd, applies, pos(same))
+			c.Decide(g.OK && g.PerLit[0] > 0, "R19.7", "log-entry-applied-to-its-owner", c.Pos(applies[0]), "Apply is reachable only when the content's ExitRouter is the router whose log was fetched", "processPrefixData applies a fetched log entry to whichever router its content names (PrefixTable.Apply picks the table by ExitRouter) while the sequence number is recorded for the router it was fetched from: one entry of X's log that names Y replaces the prefix set held for Y, and Y's own, fully consumed log never corrects it — the routes installed for Y's prefixes no longer mirror what Y announced")
+		}
+	}
+}
+
+func containsStr(xs []string, x string) bool {
+	for _, y := range xs {
+		if y == x {
+			return true
+		}
+	}
+	return false
 }
